@@ -78,7 +78,7 @@ func runC03(c c03Case) string {
 	if ar.Session == "" {
 		return "VERIF-INFRA no admin session"
 	}
-	pws := []string{"alice-pw", "bob-pw", "decoy-pw", "store-pw", "root-pw", "sibling-root-pw"}
+	pws := []string{"alice-pw", "bob-pw", "decoy-pw", "store-pw", "root-pw", "sibling-root-pw", ""}
 	for i, name := range c.Names {
 		// the placeholder BASE in generated names is the real base directory
 		name = strings.ReplaceAll(name, "BASE", e.base)
